@@ -149,7 +149,7 @@ def run(ctx: Ctx) -> None:
                               workers=8 if q else "auto")
 
     def _sim():
-        return ctx.simulate("MC_Cache", "MC_Cache_sim.cfg", num=150 if q else 1500, depth=20 if q else 30)
+        return ctx.simulate("MC_Cache", "MC_Cache_sim.cfg", num=150 if q else 600, depth=20 if q else 30)
 
     faults = ("all", "size_check", "agg_over_cache", "flag_reset", "silent_restore")
     with ThreadPoolExecutor(max_workers=3) as ex:
@@ -159,7 +159,7 @@ def run(ctx: Ctx) -> None:
             # random deep behaviours of the repaired design; and the model of the code as it is (all
             # four defects, and each alone) must violate the property: the model is not vacuous about
             # the known findings
-            extra["sim"] = ex.submit(lambda: ctx.design("Cache", "Cache_sim.cfg", simulate="num=400", depth=30,
+            extra["sim"] = ex.submit(lambda: ctx.design("Cache", "Cache_sim.cfg", simulate="num=200", depth=30,
                                                         workers=1))
             for fault in faults:
                 extra[fault] = ex.submit(lambda f=fault: ctx.design("Cache", "Cache_asis.cfg", expect_ok=False,
@@ -201,7 +201,7 @@ def run(ctx: Ctx) -> None:
 
     def shape(b):
         return (b["ip"]["mode"], tuple((a["op"], a["k"]) for a in b["hist"]))
-    budget = 6000 if q else 42000
+    budget = 6000 if q else 22000
     broad = ("T", "S")
     deepest = {m: max((len(seqs[k]["hist"]) for k in chosen if seqs[k]["ip"]["mode"] == m), default=0)
                for m in broad}
